@@ -12,6 +12,8 @@ Ltac brk := repeat (simpl; match goal with
   | |- context [if ?x then _ else _] => destruct x eqn:?
   | |- context [match chunk_at ?a ?b ?c with _ => _ end] => destruct (chunk_at a b c) eqn:?
   | |- context [match nth_error ?a ?b with _ => _ end] => destruct (nth_error a b) eqn:?
+  | |- context [match get ?a ?b with _ => _ end] => destruct (get a b) eqn:?
+  | |- context [let (_, _) := ?p in _] => destruct p
   end); simpl.
 
 (* ---------- generic list facts ---------- *)
@@ -19,6 +21,13 @@ Ltac brk := repeat (simpl; match goal with
 Lemma Forall_remove_nth {A} (P : A -> Prop) (l : list A) n : Forall P l -> Forall P (remove_nth l n).
 Proof.
   revert n. induction l as [|a l IH]; intros n Hf; simpl.
+  - destruct n; constructor.
+  - inversion Hf as [|? ? Ha Hl]; subst. destruct n; simpl; auto.
+Qed.
+
+Lemma Forall_upd_nth {A} (P : A -> Prop) (l : list A) n x : Forall P l -> P x -> Forall P (upd_nth l n x).
+Proof.
+  revert n. induction l as [|a l IH]; intros n Hf Hx; simpl.
   - destruct n; constructor.
   - inversion Hf as [|? ? Ha Hl]; subst. destruct n; simpl; auto.
 Qed.
@@ -67,7 +76,38 @@ Section WithHash.
 Variable H : bytes -> digest.
 
 Definition Good (T : toc) (k : key) (b : bytes) : Prop := good H T k b = true.
-Definition all_good (T : toc) (l : list (key * bytes)) : Prop := Forall (fun kb => Good T (fst kb) (snd kb)) l.
+
+(* a byte string that is a concatenation of whole chunks of file f, each hashing to a digest recorded for it *)
+Inductive goodcat (T : toc) (f : N) : bytes -> Prop :=
+| gc_nil : goodcat T f []
+| gc_app acc c i b : goodcat T f acc -> chunk_at T f i = Some c -> Good T (key_of f c) b -> goodcat T f (acc ++ b).
+
+Definition kfile (k : key) : N := fst (fst k).
+Definition all_good (T : toc) (l : list (key * bytes)) : Prop := Forall (fun kb => goodcat T (kfile (fst kb)) (snd kb)) l.
+Definition merges_good (T : toc) (l : list (N * bytes)) : Prop := Forall (fun fb => goodcat T (fst fb) (snd fb)) l.
+
+Lemma goodcat_one T f i c b : chunk_at T f i = Some c -> Good T (key_of f c) b -> goodcat T f b.
+Proof. intros Hc Hg. change b with ([] ++ b). eapply gc_app; eauto. constructor. Qed.
+
+Lemma goodcat_app T f a b : goodcat T f a -> goodcat T f b -> goodcat T f (a ++ b).
+Proof.
+  intros Ha Hb. induction Hb as [|acc c i b0 Hacc IH Hc Hg]; [rewrite app_nil_r; exact Ha|].
+  rewrite app_assoc. eapply gc_app; eauto.
+Qed.
+
+Lemma good_chunk T f o z b : good H T (f, o, z) b = true -> exists i c, chunk_at T f i = Some c /\ key_of f c = (f, o, z).
+Proof.
+  unfold good, recorded. intros Hg. apply existsb_exists in Hg. destruct Hg as [c [Hin Hc]].
+  apply In_nth_error in Hin. destruct Hin as [i Hi]. exists i, c. split; [exact Hi|].
+  apply andb_true_iff in Hc. destruct Hc as [Hc _]. apply andb_true_iff in Hc. destruct Hc as [Ho Hz].
+  apply Z.eqb_eq in Ho. apply Z.eqb_eq in Hz. unfold key_of. congruence.
+Qed.
+
+Lemma good_goodcat T k b : good H T k b = true -> goodcat T (kfile k) b.
+Proof.
+  destruct k as [[f o] z]. intros Hg. destruct (good_chunk T f o z b Hg) as [i [c [Hc Hk]]].
+  simpl. apply (goodcat_one T f i c b Hc). unfold Good. rewrite Hk. exact Hg.
+Qed.
 
 Lemma check_good T pre f i c b : chunk_at T f i = Some c -> check H pre c b = true -> Good T (key_of f c) b.
 Proof.
@@ -122,20 +162,20 @@ Qed.
 Definition Inv (s : st) : Prop :=
   (s_verify s = true -> s_decided s = true /\ s_lasterr s = false) /\
   (s_tainted s = false -> s_lasterr s = false ->
-     all_good (s_toc s) (s_cache s) /\ all_good (s_toc s) (s_pend s)).
+     all_good (s_toc s) (s_cache s) /\ all_good (s_toc s) (s_pend s) /\ merges_good (s_toc s) (s_merge s)).
 
 Lemma Inv_init T d : Inv (init T d).
-Proof. split; simpl; [discriminate|]. intros _ _. split; constructor. Qed.
+Proof. split; simpl; [discriminate|]. intros _ _. repeat split; constructor. Qed.
 
-Lemma all_good_app T l kb : all_good T l -> Good T (fst kb) (snd kb) -> all_good T (l ++ [kb]).
+Lemma all_good_app T l kb : all_good T l -> goodcat T (kfile (fst kb)) (snd kb) -> all_good T (l ++ [kb]).
 Proof. intros A B. apply Forall_app. split; auto. Qed.
 
 Lemma Inv_same s s' : Inv s ->
-  s_toc s' = s_toc s -> s_cache s' = s_cache s -> s_pend s' = s_pend s ->
+  s_toc s' = s_toc s -> s_cache s' = s_cache s -> s_pend s' = s_pend s -> s_merge s' = s_merge s ->
   s_tainted s' = s_tainted s -> s_lasterr s' = s_lasterr s ->
   (s_verify s' = true -> s_decided s' = true /\ s_lasterr s' = false) -> Inv s'.
 Proof.
-  intros [I1 I2] Et Ec Ep En El Hv. split; auto. rewrite Et, Ec, Ep, En, El. exact I2.
+  intros [I1 I2] Et Ec Ep Em En El Hv. split; auto. rewrite Et, Ec, Ep, Em, En, El. exact I2.
 Qed.
 
 Lemma Inv_decisions s o : Inv s ->
@@ -154,8 +194,8 @@ Proof.
   - (* PfCheck *)
     destruct (chunk_at (s_toc s) f i) as [c|] eqn:Ec; simpl; [|exact Hi].
     destruct (check H pre c b) eqn:Ek; simpl.
-    + split; simpl; [exact I1|]. intros Ht Hl. destruct (I2 Ht Hl) as [A B]. split; [exact A|].
-      apply all_good_app; [exact B|]. simpl. eapply check_good; eauto.
+    + split; simpl; [exact I1|]. intros Ht Hl. destruct (I2 Ht Hl) as [A [B C]]. split; [exact A|split; [|exact C]].
+      apply all_good_app; [exact B|]. simpl. apply (goodcat_one (s_toc s) f i c b Ec). eapply check_good; eauto.
     + destruct (s_decided s) eqn:Ed; simpl; [exact Hi|].
       split; simpl.
       * intros Hv. destruct (I1 Hv). congruence.
@@ -165,19 +205,58 @@ Proof.
     destruct (s_handle s); simpl; [|exact Hi].
     destruct (s_verify s) eqn:Ev; simpl.
     + destruct (check H pre c b) eqn:Ek; simpl; [|exact Hi].
-      split; simpl; [intros _; apply I1; reflexivity|]. intros Ht Hl. destruct (I2 Ht Hl) as [A B]. split; [exact A|].
-      apply all_good_app; [exact B|]. simpl. eapply check_good; eauto.
+      split; simpl; [intros _; apply I1; reflexivity|]. intros Ht Hl. destruct (I2 Ht Hl) as [A [B C]].
+      split; [exact A|split; [|exact C]].
+      apply all_good_app; [exact B|]. simpl. apply (goodcat_one (s_toc s) f i c b Ec). eapply check_good; eauto.
     + split; simpl; [intros Hv; congruence|]. intros Ht Hl. apply orb_false_iff in Ht. destruct Ht as [Ht Hg].
-      destruct (I2 Ht Hl) as [A B]. split; [exact A|]. apply all_good_app; [exact B|]. simpl.
+      destruct (I2 Ht Hl) as [A [B C]]. split; [exact A|split; [|exact C]]. apply all_good_app; [exact B|]. simpl.
+      apply (goodcat_one (s_toc s) f i c b Ec).
       unfold Good. destruct (good H (s_toc s) (key_of f c) b); [reflexivity|discriminate].
   - (* Commit *)
     destruct (nth_error (s_pend s) i) as [kb|] eqn:En; simpl; [|exact Hi].
-    split; simpl; [exact I1|]. intros Ht Hl. destruct (I2 Ht Hl) as [A B]. split.
+    split; simpl; [exact I1|]. intros Ht Hl. destruct (I2 Ht Hl) as [A [B C]]. split; [|split; [|exact C]].
     + constructor; [|exact A]. apply nth_error_In in En. unfold all_good in B. rewrite Forall_forall in B. apply B; auto.
     + apply Forall_remove_nth; auto.
   - (* Evict *)
-    split; simpl; [exact I1|]. intros Ht Hl. destruct (I2 Ht Hl) as [A B]. split; [|exact B].
+    split; simpl; [exact I1|]. intros Ht Hl. destruct (I2 Ht Hl) as [A [B C]]. split; [|split; [exact B|exact C]].
     apply Forall_filter; auto.
+  - (* MgStart *)
+    destruct (negb (s_handle s)); simpl; [exact Hi|].
+    split; simpl; [exact I1|]. intros Ht Hl. destruct (I2 Ht Hl) as [A [B C]]. split; [exact A|split; [exact B|]].
+    apply Forall_app. split; [exact C|]. constructor; [|constructor]. simpl. constructor.
+  - (* MgHit *)
+    destruct (nth_error (s_merge s) m) as [[f acc]|] eqn:Em; simpl; [|exact Hi].
+    destruct (chunk_at (s_toc s) f i) as [c|] eqn:Ec; simpl; [|exact Hi].
+    destruct (get (s_cache s) (key_of f c)) as [b|] eqn:Eg; simpl; [|exact Hi].
+    destruct (zlen b =? c_size c); simpl; [|exact Hi].
+    split; simpl; [exact I1|]. intros Ht Hl. destruct (I2 Ht Hl) as [A [B C]]. split; [exact A|split; [exact B|]].
+    apply Forall_upd_nth; [exact C|]. simpl. apply goodcat_app.
+    + apply nth_error_In in Em. unfold merges_good in C. rewrite Forall_forall in C. apply (C _ Em).
+    + apply get_In in Eg. unfold all_good in A. rewrite Forall_forall in A. apply (A _ Eg).
+  - (* MgFetch *)
+    destruct (nth_error (s_merge s) m) as [[f acc]|] eqn:Em; simpl; [|exact Hi].
+    destruct (chunk_at (s_toc s) f i) as [c|] eqn:Ec; simpl; [|exact Hi].
+    destruct (s_handle s); simpl; [|exact Hi].
+    destruct (s_verify s) eqn:Ev; simpl.
+    + destruct (check H false c b) eqn:Ek; simpl; [|exact Hi].
+      split; simpl; [intros _; apply I1; reflexivity|]. intros Ht Hl. destruct (I2 Ht Hl) as [A [B C]].
+      split; [exact A|split; [exact B|]]. apply Forall_upd_nth; [exact C|]. simpl.
+      eapply gc_app; eauto.
+      * apply nth_error_In in Em. unfold merges_good in C. rewrite Forall_forall in C. apply (C _ Em).
+      * eapply check_good; eauto.
+    + split; simpl; [intros Hv; congruence|]. intros Ht Hl. apply orb_false_iff in Ht. destruct Ht as [Ht Hg].
+      destruct (I2 Ht Hl) as [A [B C]]. split; [exact A|split; [exact B|]]. apply Forall_upd_nth; [exact C|]. simpl.
+      eapply gc_app; eauto.
+      * apply nth_error_In in Em. unfold merges_good in C. rewrite Forall_forall in C. apply (C _ Em).
+      * unfold Good. destruct (good H (s_toc s) (key_of f c) b); [reflexivity|discriminate].
+  - (* MgCommit *)
+    destruct (nth_error (s_merge s) m) as [[f acc]|] eqn:Em; simpl; [|exact Hi].
+    split; simpl; [exact I1|]. intros Ht Hl. destruct (I2 Ht Hl) as [A [B C]]. split; [|split; [exact B|]].
+    + constructor; [|exact A]. simpl. apply nth_error_In in Em. unfold merges_good in C. rewrite Forall_forall in C. apply (C _ Em).
+    + apply Forall_remove_nth; auto.
+  - (* MgAbort *)
+    split; simpl; [exact I1|]. intros Ht Hl. destruct (I2 Ht Hl) as [A [B C]]. split; [exact A|split; [exact B|]].
+    apply Forall_remove_nth; auto.
 Qed.
 
 Lemma Inv_exec os s : Inv s -> Inv (exec H s os).
@@ -189,20 +268,30 @@ Proof. apply Inv_exec. apply Inv_init. Qed.
 (* every cached or pending chunk of an untainted reader without recorded verification failure is good *)
 Lemma cache_ok T d os k b :
   let s := exec H (init T d) os in
-  s_tainted s = false -> s_lasterr s = false -> In (k, b) (s_cache s ++ s_pend s) -> Good T k b.
+  s_tainted s = false -> s_lasterr s = false -> In (k, b) (s_cache s ++ s_pend s) -> goodcat T (kfile k) b.
 Proof.
   intros s Ht Hl Hin. destruct (reach_inv T d os) as [_ I2]. fold s in I2.
-  destruct (I2 Ht Hl) as [A B]. destruct (exec_toc os (init T d)) as [Et _]. fold s in Et. simpl in Et.
+  destruct (I2 Ht Hl) as [A [B _]]. destruct (exec_toc os (init T d)) as [Et _]. fold s in Et. simpl in Et.
   rewrite Et in A, B. unfold all_good in A, B. rewrite Forall_forall in A, B.
   apply in_app_or in Hin. destruct Hin as [Hin|Hin]; [apply (A _ Hin)|apply (B _ Hin)].
 Qed.
 
 Lemma verified_cache_ok T d os k b :
   let s := exec H (init T d) os in
-  s_verify s = true -> s_tainted s = false -> In (k, b) (s_cache s ++ s_pend s) -> Good T k b.
+  s_verify s = true -> s_tainted s = false -> In (k, b) (s_cache s ++ s_pend s) -> goodcat T (kfile k) b.
 Proof.
   intros s Hv Ht Hin. destruct (reach_inv T d os) as [I1 _]. fold s in I1. destruct (I1 Hv) as [_ Hl].
   eapply cache_ok; eauto.
+Qed.
+
+(* the same for the bytes a passthrough merge has written so far *)
+Lemma merge_ok T d os f b :
+  let s := exec H (init T d) os in
+  s_tainted s = false -> s_lasterr s = false -> In (f, b) (s_merge s) -> goodcat T f b.
+Proof.
+  intros s Ht Hl Hin. destruct (reach_inv T d os) as [_ I2]. fold s in I2.
+  destruct (I2 Ht Hl) as [_ [_ C]]. destruct (exec_toc os (init T d)) as [Et _]. fold s in Et. simpl in Et.
+  rewrite Et in C. unfold merges_good in C. rewrite Forall_forall in C. apply (C _ Hin).
 Qed.
 
 (* --- verification decisions --- *)
@@ -251,12 +340,12 @@ Qed.
    tainted by unverified reads has made lastVerifyErr sticky: every present and future verification fails *)
 Lemma handshake T D os k b os' d o : (o = VerifyTOC d \/ o = LVerify d) ->
   let s := exec H (init T D) os in
-  s_tainted s = false -> In (k, b) (s_cache s ++ s_pend s) -> good H T k b = false ->
+  s_tainted s = false -> In (k, b) (s_cache s ++ s_pend s) -> ~ goodcat T (kfile k) b ->
   snd (step H (exec H s os') o) = OErr.
 Proof.
   intros Ho s Ht Hin Hb. apply (sticky s os' d o Ho).
   destruct (s_lasterr s) eqn:El; auto.
-  pose proof (cache_ok T D os k b Ht El Hin) as Hg. unfold Good in Hg. congruence.
+  exfalso. apply Hb. exact (cache_ok T D os k b Ht El Hin).
 Qed.
 
 (* a failing step changes neither the cache nor the pending writers *)
@@ -448,16 +537,60 @@ Proof.
   refine (proj1 (proj2 (read_loop_ind (fun _ => True) (fun _ _ _ => True) _ _ _ _ _ s f off len 0 [] fs I I))); auto.
 Qed.
 
+Lemma merge_loop_steps m seq fts cs : forall s, steps s (fst (merge_loop H s m seq cs fts)).
+Proof.
+  induction cs as [|[i c] cs IH]; intros s; [apply steps_refl|].
+  cbn [merge_loop].
+  destruct (step H s (MgHit m i)) as [s1 r] eqn:E.
+  assert (Hs1 : steps s s1) by (pose proof (steps_one s (MgHit m i)) as X; rewrite E in X; exact X).
+  assert (Hmiss : steps s (fst match find_fetch fts i with
+            | Some ft =>
+                let (s2, o) := od_fetch H s1 ft in
+                match o with
+                | Some (n, ip) =>
+                    if negb seq && negb (n =? c_size c) then (s2, RErr)
+                    else let '(s3, r3) := step H s2 (MgFetch m i ip) in
+                         match r3 with OOk => merge_loop H s3 m seq cs fts | _ => (s3, RErr) end
+                | None => (s2, RErr)
+                end
+            | None => (s1, RDesync)
+            end)).
+  { destruct (find_fetch fts i) as [ft|]; [|exact Hs1].
+    destruct (od_fetch H s1 ft) as [s2 [[n ip]|]] eqn:Ef;
+      assert (Hs2 : steps s1 s2) by (pose proof (od_fetch_steps s1 ft) as X; rewrite Ef in X; exact X);
+      [|eapply steps_trans; eauto].
+    destruct (negb seq && negb (n =? c_size c)); [eapply steps_trans; eauto|].
+    destruct (step H s2 (MgFetch m i ip)) as [s3 r3] eqn:E3.
+    assert (Hs3 : steps s2 s3) by (pose proof (steps_one s2 (MgFetch m i ip)) as X; rewrite E3 in X; exact X).
+    assert (Hs03 : steps s s3) by (eapply steps_trans; [exact Hs1|eapply steps_trans; eauto]).
+    destruct r3; try exact Hs03. eapply steps_trans; [exact Hs03|apply IH]. }
+  destruct r; try exact Hmiss. eapply steps_trans; [exact Hs1|apply IH].
+Qed.
+
+Lemma pass_fd_steps s f buf fts : steps s (fst (pass_fd H s f buf fts)).
+Proof.
+  unfold pass_fd. destruct (negb (s_handle s)); [apply steps_refl|].
+  destruct (enum_chunks _ _ _ _) as [cs|]; [|apply steps_refl].
+  destruct (get (s_cache s) (f, 0, sum_sizes cs)); [apply steps_refl|].
+  destruct (step H s (MgStart f)) as [s0 r0] eqn:E0.
+  assert (Hs0 : steps s s0) by (pose proof (steps_one s (MgStart f)) as X; rewrite E0 in X; exact X).
+  match goal with |- context [merge_loop H s0 ?m ?q cs fts] =>
+    pose proof (merge_loop_steps m q fts cs s0) as Hm; destruct (merge_loop H s0 m q cs fts) as [s1 r] end.
+  cbn [fst] in Hm.
+  destruct r; cbn [fst]; (eapply steps_trans; [exact Hs0|eapply steps_trans; [exact Hm|apply steps_one]]).
+Qed.
+
 Lemma hstep_steps s h : steps s (fst (hstep H s h)).
 Proof.
   destruct h; unfold hstep.
-  1-4, 9: match goal with
+  1-4, 10: match goal with
           | |- context [step H ?s0 ?o] => pose proof (steps_one s0 o) as X; destruct (step H s0 o) as [s1 r]; exact X
           end.
   - pose proof (prefetch_chunk_steps s f i ft) as X. destruct (prefetch_chunk H s f i ft). exact X.
   - pose proof (cache_all_steps l s OOk) as X. destruct (cache_all H s l OOk). exact X.
   - pose proof (read_at_steps s f off len fs) as X. destruct (read_at H s f off len fs). exact X.
   - apply steps_refl.
+  - pose proof (pass_fd_steps s f buf fts) as X. destruct (pass_fd H s f buf fts). exact X.
 Qed.
 
 Lemma hexec_steps hs s : steps s (hexec H s hs).
@@ -477,17 +610,16 @@ Qed.
 (* the output is a concatenation of slices of chunks of file f that are good *)
 Inductive pieces_of (T : toc) (f : N) : bytes -> Prop :=
 | po_nil : pieces_of T f []
-| po_app acc c i b lo n : pieces_of T f acc -> chunk_at T f i = Some c -> Good T (key_of f c) b ->
-    pieces_of T f (acc ++ slice lo n b).
+| po_app acc b lo n : pieces_of T f acc -> goodcat T f b -> pieces_of T f (acc ++ slice lo n b).
 
 (* the state of a verifying, untainted reader *)
 Definition Clean (T : toc) (s : st) : Prop :=
   s_toc s = T /\ s_verify s = true /\ s_decided s = true /\ s_lasterr s = false /\ s_tainted s = false /\
-  all_good T (s_cache s) /\ all_good T (s_pend s).
+  all_good T (s_cache s) /\ all_good T (s_pend s) /\ merges_good T (s_merge s).
 
 Lemma Clean_step T s o : Clean T s -> Clean T (fst (step H s o)).
 Proof.
-  intros [Ct [Cv [Cd [Cl [Cn [Cc Cp]]]]]].
+  intros [Ct [Cv [Cd [Cl [Cn [Cc [Cp Cm]]]]]]].
   assert (Hi : Inv s).
   { split; [auto|]. intros _ _. rewrite Ct. auto. }
   pose proof (Inv_step s o Hi) as [I1 I2].
@@ -496,15 +628,15 @@ Proof.
   assert (Tn : s_tainted (fst (step H s o)) = false).
   { destruct o; unfold step, verify_toc; brk; auto; congruence. }
   unfold Clean. rewrite Et, Ct in *. rewrite Fl, Cl in *.
-  destruct (I2 Tn eq_refl) as [A B]. repeat split; auto.
+  destruct (I2 Tn eq_refl) as [A [B C]]. repeat split; auto.
 Qed.
 
 Lemma reach_clean T D os : let s := exec H (init T D) os in
   s_verify s = true -> s_tainted s = false -> Clean T s.
 Proof.
   intros s Hv Ht. destruct (reach_inv T D os) as [I1 I2]. fold s in I1, I2.
-  destruct (I1 Hv) as [Hd Hl]. destruct (I2 Ht Hl) as [A B].
-  destruct (exec_toc os (init T D)) as [Et _]. fold s in Et. simpl in Et. rewrite Et in A, B.
+  destruct (I1 Hv) as [Hd Hl]. destruct (I2 Ht Hl) as [A [B C]].
+  destruct (exec_toc os (init T D)) as [Et _]. fold s in Et. simpl in Et. rewrite Et in A, B, C.
   unfold Clean. repeat split; auto.
 Qed.
 
@@ -527,13 +659,61 @@ Proof.
   - intros; apply Clean_step; auto.
   - auto.
   - intros f0 s0 acc c i b lo n Hc0 Hq Hat Hg. destruct Hc0 as [Ct [_ [_ [_ [_ [Cc _]]]]]].
-    rewrite Ct in Hat. eapply po_app; eauto.
+    apply po_app; [exact Hq|].
     apply get_In in Hg. unfold all_good in Cc. rewrite Forall_forall in Cc. apply (Cc _ Hg).
   - intros f0 s0 acc c i ip lo n Hc0 Hq Hat Ho.
     pose proof (od_core_ok_good T s0 f0 i c ip Hc0 Hat Ho) as Hg.
-    destruct Hc0 as [Ct _]. rewrite Ct in Hat. eapply po_app; eauto.
+    destruct Hc0 as [Ct _]. rewrite Ct in Hat. apply po_app; [exact Hq|]. eapply goodcat_one; eauto.
   - exact Hc.
   - constructor.
+Qed.
+
+Lemma Clean_steps T s s' : Clean T s -> steps s s' -> Clean T s'.
+Proof.
+  intros Hc [os ->]. revert s Hc. induction os as [|o os IH]; intros s Hc; simpl; auto.
+  apply IH. apply Clean_step. exact Hc.
+Qed.
+
+Lemma Clean_cache T s k b : Clean T s -> get (s_cache s) k = Some b -> goodcat T (kfile k) b.
+Proof.
+  intros [_ [_ [_ [_ [_ [Cc _]]]]]] Hg. apply get_In in Hg.
+  unfold all_good in Cc. rewrite Forall_forall in Cc. apply (Cc _ Hg).
+Qed.
+
+(* GetPassthroughFd on a verifying untainted reader: the whole-file cache entry it hands out is a concatenation of
+   chunks of that file that hash to their recorded digests; success or failure, the state stays clean *)
+Lemma pass_fd_verified T s f buf fts : Clean T s ->
+  let r := pass_fd H s f buf fts in
+  Clean T (fst r) /\ steps s (fst r) /\ (forall out, snd r = ROk out -> goodcat T f out).
+Proof.
+  intros Hc r. pose proof (pass_fd_steps s f buf fts) as Hs. fold r in Hs.
+  pose proof (Clean_steps T s (fst r) Hc Hs) as Hc'.
+  split; [exact Hc'|split; [exact Hs|]].
+  revert Hc'. unfold r, pass_fd. destruct (negb (s_handle s)); [intros _ out Hx; discriminate Hx|].
+  destruct (enum_chunks _ _ _ _) as [cs|]; [|intros _ out Hx; discriminate Hx].
+  destruct (get (s_cache s) (f, 0, sum_sizes cs)) as [b|] eqn:Eg.
+  { intros _ out Hx. cbn [snd] in Hx. inversion Hx; subst. exact (Clean_cache T s _ _ Hc Eg). }
+  destruct (step H s (MgStart f)) as [s0 r0].
+  destruct (merge_loop H s0 _ _ cs fts) as [s1 r1].
+  destruct r1; cbn [fst snd]; try (intros _ out Hx; discriminate Hx).
+  intros Hc2 out Hx.
+  destruct (get (s_cache (fst (step H s1 (MgCommit (length (s_merge s)) (sum_sizes cs))))) (f, 0, sum_sizes cs)) as [b2|] eqn:Eg2;
+    [|discriminate Hx].
+  inversion Hx; subst. exact (Clean_cache T _ _ _ Hc2 Eg2).
+Qed.
+
+Lemma passthrough_verified T D os f buf fts : let s := exec H (init T D) os in
+    s_verify s = true -> s_tainted s = false ->
+    let r := pass_fd H s f buf fts in
+    (forall out, snd r = ROk out -> goodcat T f out)
+    /\ s_verify (fst r) = true /\ s_tainted (fst r) = false
+    /\ (exists os', fst r = exec H (init T D) (os ++ os')).
+Proof.
+  intros s Hv Ht r.
+  destruct (pass_fd_verified T s f buf fts (reach_clean T D os Hv Ht)) as [Hc [[os' C] E]].
+  fold r in Hc, C, E. destruct Hc as [_ [A [_ [_ [B _]]]]].
+  split; [exact E|]. split; [exact A|]. split; [exact B|].
+  exists os'. rewrite C. unfold s. symmetry. apply exec_app.
 Qed.
 
 Lemma reads_verified_partial T D os f off len fs : let s := exec H (init T D) os in
@@ -577,3 +757,33 @@ Lemma residue_witness :
   /\ s_verify s = true /\ s_lasterr s = false /\ s_tainted s = true
   /\ good wH wT (1%N, 0, 2) [9%N; 9%N] = false.
 Proof. vm_compute. repeat split. Qed.
+
+Lemma bytes_eqb_eq a b : bytes_eqb a b = true -> a = b.
+Proof.
+  revert b. induction a as [|x a IH]; intros [|y b]; simpl; try discriminate; auto.
+  intros Hx. apply andb_true_iff in Hx. destruct Hx as [Hx Hr]. apply N.eqb_eq in Hx. subst. f_equal. auto.
+Qed.
+
+(* with wH / wT the only good chunk content is [1;2]: altered bytes [9;9] are not a concatenation of good chunks *)
+Lemma w_goodcat_shape b : goodcat wH wT 1%N b -> b = [] \/ exists acc, b = acc ++ [1%N; 2%N].
+Proof.
+  intros Hg. induction Hg as [|acc c i b Hacc IH Hc Hgood]; [left; reflexivity|].
+  right. exists acc. f_equal.
+  unfold Good, good, recorded, key_of in Hgood. cbv beta iota zeta in Hgood.
+  remember (wH b) as h eqn:Eh.
+  apply existsb_exists in Hgood. destruct Hgood as [c' [Hin Hc']].
+  simpl in Hin. destruct Hin as [<-|[]]. cbn [c_dig c_pdig opt_is] in Hc'.
+  apply andb_true_iff in Hc'. destruct Hc' as [_ Hc'].
+  assert (Hh : (7 =? h)%N = true) by (destruct (7 =? h)%N; [reflexivity|discriminate Hc']).
+  apply N.eqb_eq in Hh. subst h. unfold wH, tabH in Hh.
+  destruct (bytes_eqb [1%N; 2%N] b) eqn:Eb; [|discriminate Hh].
+  symmetry. apply bytes_eqb_eq. exact Eb.
+Qed.
+
+Lemma w_altered_not_goodcat : ~ goodcat wH wT 1%N [9%N; 9%N].
+Proof.
+  intros Hg. apply w_goodcat_shape in Hg. destruct Hg as [Hx|[acc Hx]]; [discriminate Hx|].
+  assert (Hl : last [9%N; 9%N] 0%N = last (acc ++ [1%N; 2%N]) 0%N) by (rewrite <- Hx; reflexivity).
+  change (acc ++ [1%N; 2%N]) with (acc ++ [1%N] ++ [2%N]) in Hl. rewrite app_assoc, last_last in Hl.
+  simpl in Hl. discriminate Hl.
+Qed.
